@@ -34,12 +34,18 @@ ASSUMPTIONS = [
 
 A4 = [["uint", 8, "s"], ["uint", 3, "s"], ["varr", ["uint", 16, "s"], 2], ["bool"]]
 A6 = A4 + [["int", 16], ["struct", [["bool"], ["uint", 8, "s"]]]]
+A8 = A4 + [["farr", ["byte"], 2], ["varr", ["utf8"], 2], ["farr", ["uint", 8, "s"], 2], ["varr", ["byte"], 3]]  # byte / text arrays (bulk read paths)
+NAMINGS = ["distinct", "same-name-next-minor", "same-name-same-version"]
 
 
 def pairs(tier):
     alpha = A4 if tier == "quick" else A6
-    for n in range(1, 4):
-        for long in itertools.product(alpha, repeat=n):
+    seen = set()
+    for n, al in [(1, A8), (2, A8), (3, alpha)] + ([(3, A8)] if tier != "quick" else []):
+        for long in itertools.product(al, repeat=n):
+            if T.key(list(long)) in seen:
+                continue
+            seen.add(T.key(list(long)))
             for m in range(0, n):
                 short = long[:m]
                 base = -(-L.tmax(["struct", list(long)]) // 8) * 8
@@ -47,7 +53,7 @@ def pairs(tier):
                     yield ["delim", ["struct", list(short)], ext], ["delim", ["struct", list(long)], ext]
 
 
-CONTAINERS = ["self", "middle", "farr", "varr", "variant", "in-delimited"]
+CONTAINERS = ["self", "middle", "farr", "varr", "variant", "in-delimited", "in-delimited-array"]
 
 
 def container(kind, X):
@@ -64,6 +70,11 @@ def container(kind, X):
     if kind == "in-delimited":
         inner = ["struct", [["uint", 3, "s"], X, ["uint", 8, "s"]]]
         return ["delim", inner, -(-L.tmax(inner) // 8) * 8 + 8]
+    if kind == "in-delimited-array":
+        # D inside a delimited type W, W an array element at a non-zero offset of a sealed structure
+        inner = ["struct", [["uint", 3, "s"], X, ["uint", 8, "s"]]]
+        W = ["delim", inner, -(-L.tmax(inner) // 8) * 8 + 8]
+        return ["struct", [["uint", 8, "s"], ["uint", 16, "s"], ["farr", W, 2], ["bool"]]]
     raise ValueError(kind)
 
 
@@ -117,16 +128,28 @@ def cases(shard, tier):
     for i, (D1, D2) in enumerate(pairs(tier)):
         if i % shard["parts"] == shard["part"]:
             for kind in CONTAINERS:
-                yield {"D": D1, "D2": D2, "container": kind}
+                for naming in NAMINGS:
+                    if naming != "distinct" and i % 3 != 0 and tier == "quick":
+                        continue  # quick tier: the same-name namings on every third pair
+                    yield {"D": D1, "D2": D2, "container": kind, "naming": naming}
 
 
 def check_case(case, R: engine.Acc):
     D1, D2, kind = case["D"], case["D2"], case["container"]
     c1, c2 = container(kind, D1), container(kind, D2)
-    t1, t2 = T.build(c1), T.build(c2)
+    naming = case.get("naming", "distinct")
+    # revisions of one type usually share its name: built as distinct names, as D.1.0 / D.1.1, and as two trees' D.1.0
+    T.NAME_OVERRIDES.clear()
+    if naming != "distinct":
+        T.NAME_OVERRIDES[T.key(D1)] = ("Rev", (1, 0))
+        T.NAME_OVERRIDES[T.key(D2)] = ("Rev", (1, 1) if naming == "same-name-next-minor" else (1, 0))
+    try:
+        t1, t2 = T.build(c1, cache={}), T.build(c2, cache={})
+    finally:
+        T.NAME_OVERRIDES.clear()
     # (a) container layout is identical
     l1, l2 = layout_obs(t1), layout_obs(t2)
-    R.case([D1, D2, kind, "layout"], nontrivial=True, sample=False)
+    R.case([D1, D2, kind, naming, "layout"], nontrivial=True, sample=False)
     if kind != "self":
         # names of the nested types differ (hash of the description); offsets list carries field names of the container only
         if l1 != l2:
@@ -139,21 +162,21 @@ def check_case(case, R: engine.Acc):
                 R.violation("delimited-layout-depends-on-fields", "a delimited type's bit_length_set depends only on its extent", case, observed=l2.get(k), expected=l1.get(k))
                 break
     # (b) wire compatibility, both directions
-    with_header = kind == "self"
-    for direction, (wd, rd, wt, rt) in (("old->new", (c1, c2, t1, t2)), ("new->old", (c2, c1, t2, t1))):
+    header_modes = [True] if kind == "self" else ([False, True] if c1[0] == "delim" else [False])
+    for with_header, (direction, (wd, rd, wt, rt)) in itertools.product(header_modes, (("old->new", (c1, c2, t1, t2)), ("new->old", (c2, c1, t2, t1)))):
         vals = V.values(wd, cap=24)
         if "value_index" in case:
-            vals = [(i, v) for i, v in enumerate(vals) if i == case["value_index"] and direction == case.get("direction")]
+            vals = [(i, v) for i, v in enumerate(vals) if i == case["value_index"] and direction == case.get("direction") and with_header == case.get("with_header", with_header)]
         else:
             vals = list(enumerate(vals))
         for vi, v in vals:
-            one = {**case, "direction": direction, "value_index": vi, "value": repr(v)[:200]}
+            one = {**case, "direction": direction, "with_header": with_header, "value_index": vi, "value": repr(v)[:200]}
             try:
                 cv = C.canon(wd, v)
                 wire_ref = C.encode(wd, v, with_header=with_header)
             except C.BadValue:
                 continue
-            R.case([D1, D2, kind, direction, repr(v)], nontrivial=True, sample=(vi == 5 and kind == "varr"))
+            R.case([D1, D2, kind, naming, with_header, direction, repr(v)], nontrivial=True, sample=(vi == 5 and kind == "varr"))
             wire = pydsdl.serialize(wt, v, with_delimiter_header=with_header)
             if wire != wire_ref:
                 R.violation("writer-bytes", "writer produces the Specification's bytes (see C06)", one, observed=wire.hex(), expected=wire_ref.hex())
